@@ -109,3 +109,82 @@ Theorem C01_truncate_clamped_refuted : exists lastEnd sz mmapSz maxSz pageSize e
   check_truncate_clamped lastEnd sz mmapSz maxSz pageSize = (e, true) /\ (e < lastEnd * pageSize)%Z.
 Proof. exact check_truncate_clamped_refuted. Qed.
 Print Assumptions C01_truncate_clamped_refuted.
+
+(* ---- the commit protocol itself (Model/Commit.v = tx.go tryCommitChangesToFile / syncNewMeta: page writes of the
+   transaction, pages of the new overwrite mapping and of the new free lists (Model/Pages.v), sync, header page into
+   the inactive slot (Model/Meta.v), sync, return). For EVERY monitor state between two commits (any pending page
+   writes of earlier flushes) and EVERY commit whose page writes stay off the header pages and off the pages the
+   committed state can reach (what the allocator theorems of C04 give), whose new chains get fresh distinct page ids
+   and whose header names them and carries the next transaction id: the write-discipline monitor ACCEPTS the whole
+   sequence - the hypothesis of the crash theorem holds for the model's commits, it is not only sampled on traces -
+   and the state it protects afterwards is exactly what the commit serialised: mapping, page ids of both chains, both
+   free lists (normalised as readFreeList does), root, transaction id, end markers, meta-area size, maximum size. ---- *)
+From VF Require Import Commit CommitProofs Pages Region Meta MetaProofs PagesProofs.
+Theorem C01_commit_follows_the_write_discipline : forall fuel (m : mon) ps sched walIds mapping flIds metaL dataL h evs,
+  infl m = None ->
+  commit_events ps (negb (act m)) sched walIds mapping flIds metaL dataL h = Some evs ->
+  Forall (fun w => 2 <= fst w /\ ~ In (fst w) (cfp m)) sched ->
+  Forall (fun id => 2 <= id < 2^64 /\ ~ In id (cfp m)) (walIds ++ flIds) ->
+  NoDup (walIds ++ flIds) ->
+  (forall w, In w (pend m) -> ~ In (fst w) (walIds ++ flIds)) ->
+  (forall w, In w sched -> ~ In (fst w) (walIds ++ flIds)) ->
+  header_ok h -> h_magic h = magic -> h_version h = version -> h_txid h = nxt_txid (txid m) ->
+  h_wal h = hd 0 walIds -> h_freelist h = hd 0 flIds ->
+  (walIds = [] -> mapping = []) -> (flIds = [] -> metaL = [] /\ dataL = []) ->
+  Forall (fun kv => 0 <= fst kv < 2^56 /\ 0 <= snd kv < 2^56) mapping -> Z.of_nat (length mapping) < 2^32 ->
+  Forall valid_region metaL -> Forall valid_region dataL -> Z.of_nat (length metaL + length dataL) < 2^32 ->
+  (length walIds <= fuel)%nat -> (length flIds <= fuel)%nat ->
+  exists m', mon_run fuel m evs = Some m' /\
+    act m' = negb (act m) /\ txid m' = nxt_txid (txid m) /\ infl m' = None /\ pend m' = [] /\
+    let st := fst (cst m') in
+    r_wal st = mapping /\ r_walpages st = walIds /\ r_flpages st = flIds /\
+    r_metaFree st = optimize metaL /\ r_dataFree st = optimize dataL /\
+    r_root st = h_root h /\ r_txid st = h_txid h /\ r_dataEnd st = h_dataEnd h /\ r_metaEnd st = h_metaEnd h /\
+    r_metaTotal st = h_metaTotal h /\ r_maxSize st = h_maxSize h.
+Proof. exact commit_accepted. Qed.
+Print Assumptions C01_commit_follows_the_write_discipline.
+
+(* ... composed with the crash theorem: stop the model's commit after ANY number of its disk events, let ANY subset of
+   the page writes issued since the last completed sync reach the disk (a torn header counts as invalid): recovery
+   returns the state of the previous commit - unchanged until the very last event - or, only once the new header has
+   been issued, the complete state of this commit. *)
+Theorem C01_commit_is_atomic_at_every_crash_point : forall fuel (m m' : mon) evs,
+  MInv fuel m -> mon_run fuel m evs = Some m' ->
+  forall pre post, evs = pre ++ post ->
+  exists m1, mon_run fuel m pre = Some m1 /\
+    (Forall (fun e => e <> CommitOk) pre -> cst m1 = cst m) /\
+    forall ws, crashsub cell header hdr_of (pend m1) ws ->
+      mon_recover fuel (apply cell ws (dd m1)) = Some (cst m1) \/
+      (exists c h v fp, infl m1 = Some (c, h, v, fp) /\ mon_recover fuel (apply cell ws (dd m1)) = Some v).
+Proof.
+  intros fuel m m' evs Hinv Hrun pre post ->.
+  destruct (mon_run_app fuel pre m post m' Hrun) as (m1 & H1 & _).
+  exists m1. split; [exact H1|]. split.
+  - intros Hne. exact (proj1 (run_keeps_cst fuel pre m m1 Hne H1)).
+  - intros ws Hs. exact (crash_atomic_concrete fuel pre m m1 Hinv H1 ws Hs).
+Qed.
+Print Assumptions C01_commit_is_atomic_at_every_crash_point.
+
+(* non-vacuity: a new file (64-byte pages, header pages with transaction ids 1 and 0, nothing else); a commit that writes
+   data page 2, a free-list page 3 holding the free region [4,6), and the header with transaction id 2 into slot 1: the
+   monitor accepts the 6 events, afterwards it protects the new state (pages 3, 2) *)
+Definition C01_ex_header (tx root fl de me mt : Z) : header :=
+  {| h_magic := magic; h_version := version; h_pageSize := 64; h_maxSize := 0; h_flags := 0; h_root := root; h_txid := tx;
+     h_freelist := fl; h_wal := 0; h_dataEnd := de; h_metaEnd := me; h_metaTotal := mt; h_checksum := 0 |}.
+Definition C01_ex_disk : cdisk := fun p =>
+  if p =? 0 then Some (encode_header (C01_ex_header 1 0 0 2 2 0))
+  else if p =? 1 then Some (encode_header (C01_ex_header 0 0 0 2 2 0)) else None.
+Example C01_ex_commit : exists m evs m',
+  mon_init 10 C01_ex_disk = Some m /\ act m = false /\ txid m = 1 /\
+  commit_events 64 (negb (act m)) [(2, [7; 7; 7])] [] [] [3] [] [{| rid := 4; rcount := 2 |}] (C01_ex_header 2 2 3 6 6 1) = Some evs /\
+  length evs = 6%nat /\ mon_run 10 m evs = Some m' /\
+  act m' = true /\ txid m' = 2 /\ r_dataFree (fst (cst m')) = [{| rid := 4; rcount := 2 |}] /\ r_root (fst (cst m')) = 2 /\ cfp m' = [3; 2; 3].
+Proof.
+  destruct (mon_init 10 C01_ex_disk) as [m|] eqn:Em; [|vm_compute in Em; discriminate].
+  destruct (commit_events 64 (negb (act m)) [(2, [7; 7; 7])] [] [] [3] [] [{| rid := 4; rcount := 2 |}] (C01_ex_header 2 2 3 6 6 1)) as [evs|] eqn:Ee.
+  2:{ vm_compute in Em. injection Em as <-. vm_compute in Ee. discriminate. }
+  destruct (mon_run 10 m evs) as [m'|] eqn:Er.
+  2:{ vm_compute in Em. injection Em as <-. vm_compute in Ee. injection Ee as <-. vm_compute in Er. discriminate. }
+  exists m, evs, m'. vm_compute in Em. injection Em as <-. vm_compute in Ee. injection Ee as <-. vm_compute in Er. injection Er as <-.
+  repeat split.
+Qed.
